@@ -267,3 +267,132 @@ Proof.
   vm_compute. repeat split.
 Qed.
 Print Assumptions C04_example_more.
+
+(* ==== NestCUE (Core/Nest.v): disjunctions as values of struct fields, and disjunctions of such
+   structs.  [nest_pair labs atoms fuel plain ds] is the value/default pair of the node
+   plain terms & struct-level disjunctions ds; an alternative [AStruct rows] records, per label of
+   the universe, whether the field is present and the OUTCOME (resolution, acceptance) of the
+   value/default pair of the conjunction of everything given to that field. ==== *)
+From Verif Require Import Core.DisjLaws2 Core.DisjGen Core.DisjGenLaws Core.Nest Core.NestLaws.
+From Coq Require Import Permutation.
+
+(* value/default pairs propagate through fields: a surviving struct alternative reports at every
+   label exactly the Core/Disj.v outcome of ALL the field values its literals give to that label
+   (plain operands and disjunctions alike), and none of its present fields is left without a value *)
+Theorem C04_nest_struct_alternative_fields : forall labs atoms fuel ts fs,
+  alt_val labs atoms fuel ts = AStruct fs ->
+  fs = map (fun l => (negb (null (field_vals ts l)),
+                      (resolve (pair_of labs atoms fuel (f_plain ts l) (f_disjs ts l)),
+                       map (accepts (pair_of labs atoms fuel (f_plain ts l) (f_disjs ts l))) (seq 0 (length atoms))))) labs /\
+  (forall l, In l labs -> null (field_vals ts l) = false ->
+             resolve (pair_of labs atoms fuel (f_plain ts l) (f_disjs ts l)) <> NoValue).
+Proof. exact struct_alternative_fields. Qed.
+Print Assumptions C04_nest_struct_alternative_fields.
+
+(* failed disjuncts vanish THROUGH fields: a field whose disjuncts are all eliminated fails the struct *)
+Theorem C04_nest_failed_field_fails_struct : forall labs atoms fuel ts l,
+  lits ts <> [] -> In l labs -> null (field_vals ts l) = false ->
+  resolve (pair_of labs atoms fuel (f_plain ts l) (f_disjs ts l)) = NoValue ->
+  alt_val labs atoms fuel ts = AErr.
+Proof. exact failed_field_fails_struct. Qed.
+Print Assumptions C04_nest_failed_field_fails_struct.
+
+(* ... and such a struct disjunct - like one containing bottom - changes neither values nor default flags *)
+Theorem C04_nest_eliminated_disjunct_irrelevant : forall labs atoms fuel plain d r c,
+  (forall t, g_is_tuple sdisjunct t r -> nest_tval labs atoms fuel plain (map snd (c :: t)) = AErr) ->
+  nest_pair labs atoms fuel plain ((d ++ [c]) :: r) = nest_pair labs atoms fuel plain (d :: r).
+Proof. exact nest_eliminated_disjunct_irrelevant. Qed.
+Print Assumptions C04_nest_eliminated_disjunct_irrelevant.
+
+Theorem C04_nest_failed_disjunct_irrelevant : forall labs atoms fuel plain d r m c,
+  fuel <> 0 -> In TBot c ->
+  nest_pair labs atoms fuel plain ((d ++ [(m, c)]) :: r) = nest_pair labs atoms fuel plain (d :: r).
+Proof. exact nest_failed_disjunct_irrelevant. Qed.
+Print Assumptions C04_nest_failed_disjunct_irrelevant.
+
+(* ambiguity is never silently resolved, one level up *)
+Theorem C04_nest_resolve_never_silent : forall (p : list (aval * bool)) v,
+  nest_resolve p = GChosen v ->
+  gdefaults aval aval_eqb p = [v] \/ (gdefaults aval aval_eqb p = [] /\ gvalues aval aval_eqb p = [v]).
+Proof. exact nest_resolve_never_silent. Qed.
+Print Assumptions C04_nest_resolve_never_silent.
+
+Theorem C04_nest_chosen_is_survivor : forall labs atoms fuel plain ds v,
+  nest_resolve (nest_pair labs atoms fuel plain ds) = GChosen v ->
+  exists t, g_is_tuple sdisjunct t ds /\ aval_err (nest_tval labs atoms fuel plain (map snd t)) = false /\
+            nest_tval labs atoms fuel plain (map snd t) = v.
+Proof. exact nest_chosen_is_survivor. Qed.
+Print Assumptions C04_nest_chosen_is_survivor.
+
+Theorem C04_nest_accept_is_union : forall labs atoms fuel plain ds i,
+  nest_accepts (nest_pair labs atoms fuel plain ds) i =
+  existsb (fun t => aval_acc i (nest_tval labs atoms fuel plain (map snd t))) (gtuples sdisjunct ds).
+Proof. exact nest_accept_is_union. Qed.
+Print Assumptions C04_nest_accept_is_union.
+
+(* order independence: of the struct-level disjunctions, of the disjuncts of each, of duplicates and weaker copies *)
+Theorem C04_nest_operand_order_independent : forall labs atoms fuel plain ds ds',
+  Permutation ds ds' ->
+  (forall i, nest_accepts (nest_pair labs atoms fuel plain ds) i = nest_accepts (nest_pair labs atoms fuel plain ds') i) /\
+  nest_resolve (nest_pair labs atoms fuel plain ds) = nest_resolve (nest_pair labs atoms fuel plain ds').
+Proof. exact nest_operand_order_independent. Qed.
+Print Assumptions C04_nest_operand_order_independent.
+
+Theorem C04_nest_disjuncts_as_sets : forall labs atoms fuel plain ds ds',
+  Forall2 (fun d d' : sdisj => forall c, In c d <-> In c d') ds ds' ->
+  (forall i, nest_accepts (nest_pair labs atoms fuel plain ds) i = nest_accepts (nest_pair labs atoms fuel plain ds') i) /\
+  nest_resolve (nest_pair labs atoms fuel plain ds) = nest_resolve (nest_pair labs atoms fuel plain ds').
+Proof. exact nest_disjuncts_as_sets. Qed.
+Print Assumptions C04_nest_disjuncts_as_sets.
+
+Theorem C04_nest_disjunct_order_independent : forall labs atoms fuel plain l1 d d' l2,
+  Permutation d d' ->
+  (forall i, nest_accepts (nest_pair labs atoms fuel plain (l1 ++ d :: l2)) i =
+             nest_accepts (nest_pair labs atoms fuel plain (l1 ++ d' :: l2)) i) /\
+  nest_resolve (nest_pair labs atoms fuel plain (l1 ++ d :: l2)) = nest_resolve (nest_pair labs atoms fuel plain (l1 ++ d' :: l2)).
+Proof. exact nest_disjunct_order_independent. Qed.
+Print Assumptions C04_nest_disjunct_order_independent.
+
+Theorem C04_nest_duplicate_disjunct : forall labs atoms fuel plain l1 d c l2,
+  In c d ->
+  (forall i, nest_accepts (nest_pair labs atoms fuel plain (l1 ++ (d ++ [c]) :: l2)) i =
+             nest_accepts (nest_pair labs atoms fuel plain (l1 ++ d :: l2)) i) /\
+  nest_resolve (nest_pair labs atoms fuel plain (l1 ++ (d ++ [c]) :: l2)) = nest_resolve (nest_pair labs atoms fuel plain (l1 ++ d :: l2)).
+Proof. exact nest_duplicate_disjunct. Qed.
+Print Assumptions C04_nest_duplicate_disjunct.
+
+Theorem C04_nest_weaker_copy_irrelevant : forall labs atoms fuel plain d r m m' e,
+  In (m, e) d -> implb m' m = true ->
+  (forall i, nest_accepts (nest_pair labs atoms fuel plain ((d ++ [(m', e)]) :: r)) i =
+             nest_accepts (nest_pair labs atoms fuel plain (d :: r)) i) /\
+  nest_resolve (nest_pair labs atoms fuel plain ((d ++ [(m', e)]) :: r)) = nest_resolve (nest_pair labs atoms fuel plain (d :: r)).
+Proof. exact nest_weaker_copy_irrelevant. Qed.
+Print Assumptions C04_nest_weaker_copy_irrelevant.
+
+(* non-vacuity: {a: *1 | 2} resolves a to 1; & {a: 2 | 3} leaves a = 2; ({a: 1 | 2} | {a: 3}) & {a: 3} keeps the
+   second disjunct only; {a: 1 | 2} | {a: 3} is ambiguous; *{a: 1} | {a: 2} resolves to the marked struct *)
+Definition nx_i (z : Z) := EScalar (SAtom (AInt z)).
+Definition nx_lit (d : disj) : sterm := TLit [(LReg 0%N, mkFval [] [d])].
+Definition nx_one (z : Z) : sterm := TLit [(LReg 0%N, mkFval [nx_i z] [])].
+Definition nx_L := [LReg 0%N; LReg 9%N].
+Definition nx_A := [AInt 1%Z; AInt 2%Z; AInt 3%Z].
+Definition nx_res plain ds := nest_resolve (nest_pair nx_L nx_A 5 plain ds).
+Definition nx_field (r : gresolution aval) : option (resolution * list bool) :=
+  match r with GChosen (AStruct ((true, o) :: _)) => Some o | _ => None end.
+
+Example C04_nest_example :
+  (exists v, nx_field (nx_res [nx_lit [(true, nx_i 1); (false, nx_i 2)]] []) = Some (Chosen v, [true; true; false])) /\
+  (exists v, nx_field (nx_res [nx_lit [(true, nx_i 1); (false, nx_i 2)]; nx_lit [(false, nx_i 2); (false, nx_i 3)]] [])
+             = Some (Chosen v, [false; true; false])) /\
+  nx_field (nx_res [nx_lit [(false, nx_i 1); (false, nx_i 2)]] []) = Some (Ambiguous, [true; true; false]) /\
+  nx_res [nx_one 3] [[(false, [nx_lit [(false, nx_i 1); (false, nx_i 2)]]); (false, [nx_one 3])]] = nx_res [nx_one 3] [] /\
+  nx_res [] [[(false, [nx_lit [(false, nx_i 1); (false, nx_i 2)]]); (false, [nx_one 3])]] = GAmbiguous /\
+  nx_res [] [[(true, [nx_one 1]); (false, [nx_one 2])]] = nx_res [nx_one 1] [] /\
+  nx_res [nx_one 3] [[(false, [nx_one 1]); (false, [nx_one 2])]] = GNoValue /\
+  alt_val nx_L nx_A 5 [nx_lit [(false, nx_i 1)]; nx_one 2] = AErr.
+Proof.
+  split; [eexists; vm_compute; reflexivity|].
+  split; [eexists; vm_compute; reflexivity|].
+  vm_compute. repeat split.
+Qed.
+Print Assumptions C04_nest_example.
